@@ -47,6 +47,31 @@ example : ((seg3.linebreakBefore 1).map fun s => ((s.get 0).next, (s.get 1).prev
 example : ((seg3.addLineEnd (some 2) 64).bind fun (e, s) => (s.delLineEnd e).map fun s => ((s.get 1).next, (s.get 2).prev, s.first, s.last)) =
     some (some 2, some 1, some 0, some 2) := by decide
 
+/-! ### the distribution loop of `Segment::justify` returns
+
+The only loop of `Segment::justify` that is not a walk over the slots of the line is the `do … while` that hands out the space of level 0.
+Whatever one round does - the arithmetic over stretch, shrink, step and weight, which are glyph attributes of either sign the loader never
+looks at - the loop as it is written on this run (`Gen.Justify.distributionLoopCountsRounds`, read off `src/Justifier.cpp`) makes at most
+one round per slot of the line and one more.  (On the pinned tree there is no counter and weights of both signs make the rounds cycle:
+fix 81c3b2cc; the justification-font stage of `tools/props/c19.py` generates such fonts.) -/
+theorem distribution_loop_makes_at_most_one_round_per_slot {σ : Type} (body : σ → σ × Bool) (numSlots : Nat) (st : σ) :
+    (distLoop body numSlots st).2 ≤ numSlots + 1 := by
+  induction numSlots generalizing st with
+  | zero => simp [distLoop]
+  | succ k ih =>
+    unfold distLoop
+    simp only []
+    split
+    · have := ih (body st).1
+      simp only []
+      omega
+    · simp
+
+theorem justify_counts_the_rounds_of_its_distribution_loop : Gen.Justify.distributionLoopCountsRounds = true := by decide
+
+/-- a body that always asks for another round (what weights of both signs can do) still stops -/
+example : (distLoop (fun (n : Nat) => (n + 1, true)) 3 0) = (4, 4) := by decide
+
 /-! ### the records of the justification block (`Segment::newJustify`, `SlotJustify::size_of`)
 
 `Segment::newJustify` allocates one block of `m_bufSize` records of `SlotJustify::size_of(levels)` bytes each and links them through
